@@ -19,13 +19,15 @@ def h_behavior(a, inst):
     return equal_snap(real, ref)
 
 
+EXTRA_MODULES = ["harness.C21gt"]  # threads: a subscriber racing the producer (gate threads)
 ENCODED = ["reactivex/subject/behaviorsubject.py", "reactivex/subject/subject.py", "reactivex/subject/innersubscription.py",
            "reactivex/observer/autodetachobserver.py", "reactivex/observable/observable.py"]
-BOUNDS = {"quick": "every call history of length 4 over the 12-op alphabet of C20, initial value in {None, 0, 7}",
+BOUNDS = {"quick": "every call history of length 4 over the 12-op alphabet of C20, initial value in {None, 0, 7}; threads (GT): a subscriber thread (subscribe, or subscribe and unsubscribe at once) racing a producer thread over 4 sequences, 2 ordered preemptions at instruction-level yield points of the subject modules",
           "thorough": "length 6, initial value in {None, 0}"}
-ASSUMES = ["reference subject as in C20 plus: subscribe delivers the current value first; on_next updates it",
+ASSUMES = ["threads: gate-aware RLock shims; the late subscriber must receive one of the sequential outcomes (a prefix of one when it unsubscribes), the early subscriber everything, nothing may raise", "reference subject as in C20 plus: subscribe delivers the current value first; on_next updates it",
            "an in-callback unsubscribe-self issued while the subscription is still being established is a no-op (no handle yet)"]
 MANIFEST = {
+    "engine": "XH+GT",
     "text": "Bounded symbolic model checking over call histories (as C20) on the real BehaviorSubject against a reference model; "
             "initial values include None and 0 (falsy).",
     "note": "History length 4 / 6; 3 observers.",
